@@ -516,6 +516,105 @@ def raise_sites(mod, name):
 RAISE_FUNCS = [('coneprog', 'conelp'), ('coneprog', 'coneqp'), ('coneprog', 'lp'), ('coneprog', 'socp'), ('coneprog', 'sdp'),
                ('coneprog', 'qp'), ('cvxprog', 'cpl'), ('cvxprog', 'cp'), ('cvxprog', 'gp')]
 
+
+# ------------------------------------------------------------------------------------------------ C06
+DISPATCHERS = [('coneprog', 'conelp'), ('coneprog', 'coneqp'), ('cvxprog', 'cpl'), ('cvxprog', 'cp')]
+WRAPPERS = [('coneprog', 'lp'), ('coneprog', 'socp'), ('coneprog', 'sdp'), ('coneprog', 'qp'), ('cvxprog', 'gp')]
+DIMS_QS2 = "dims and (dims['q'] or dims['s'])"
+
+def dispatch_body(fn):
+    """Lean `do` lines of the kktsolver-name dispatch of one solver"""
+    lines = []
+    tuples = {}
+    ET = lambda: ExprT(['kktsolver'], tuples=tuples, params={DIMS_QS2: 'coneQS', DIMS_QS: 'coneQS'})
+    done_factor = False
+    def name_default(body):
+        # `kktsolver = 'x'`  or  if dims...: kktsolver = 'a' else: kktsolver = 'b'
+        if len(body) == 1 and isinstance(body[0], ast.Assign) and ast.unparse(body[0].targets[0]) == 'kktsolver' \
+           and isinstance(body[0].value, ast.Constant):
+            return val_const(body[0].value.value)
+        if len(body) == 1 and isinstance(body[0], ast.If) and ast.unparse(body[0].test) in (DIMS_QS, DIMS_QS2):
+            return '(if coneQS then %s else %s)' % (name_default(body[0].body), name_default(body[0].orelse))
+        raise Untranslatable('default kktsolver block: ' + ast.unparse(body)[:120])
+    def factor_of(body):
+        """first statement `factor = misc.kkt_xxx(args...)` -> (name, number of positional args)"""
+        for st in body:
+            if isinstance(st, ast.Assign) and ast.unparse(st.targets[0]) == 'factor' and isinstance(st.value, ast.Call):
+                f = st.value.func
+                nm = f.attr if isinstance(f, ast.Attribute) else ast.unparse(f)
+                return nm, len(st.value.args)
+        raise Untranslatable('no `factor = misc.kkt_*(...)` in branch: ' + ast.unparse(body)[:120])
+    def chain(ifnode):
+        nm, na = factor_of(ifnode.body)
+        head = '(pyIf %s (pure (%s, %d)) ' % (ET().test(ifnode.test), lstr(nm), na)
+        if len(ifnode.orelse) == 1 and isinstance(ifnode.orelse[0], ast.If):
+            return head + chain(ifnode.orelse[0]) + ')'
+        nm2, na2 = factor_of(ifnode.orelse)
+        return head + '(pure (%s, %d)))' % (lstr(nm2), na2)
+    for st in fn.body:
+        if isinstance(st, ast.Assign) and len(st.targets) == 1 and isinstance(st.targets[0], ast.Name):
+            T = st.targets[0].id
+            if T == 'defaultsolvers' and isinstance(st.value, ast.Tuple):
+                tuples[T] = [e.value for e in st.value.elts]; continue
+            if T == 'kktsolver': raise Untranslatable('assignment to kktsolver: ' + ast.unparse(st)[:100])
+        if isinstance(st, ast.If) and 'kktsolver' in ExprT([]).names(st.test):
+            t = st.test
+            src = ast.unparse(t)
+            if src == 'kktsolver is None':
+                lines.append('let kktsolver := if Val.isNone kktsolver then %s else kktsolver' % name_default(st.body)); continue
+            if len(st.body) == 1 and isinstance(st.body[0], ast.Raise) and not st.orelse and ET().closed(t):
+                lines.append('raiseIf %s %s' % (ET().test(t), lstr(raise_class(st.body[0])))); continue
+            if isinstance(t, ast.Compare) and isinstance(t.ops[0], ast.In) and ast.unparse(t.left) == 'kktsolver' and not done_factor:
+                inner = [x for x in st.body if isinstance(x, ast.If) and 'kktsolver' in ExprT([]).names(x.test)
+                         and isinstance(x.test, ast.Compare) and isinstance(x.test.ops[0], ast.Eq)]
+                if len(inner) != 1: raise Untranslatable('factory selection block: ' + ast.unparse(st)[:200])
+                lines.append('pyIf %s %s (pure ("callable", 0))' % (ET().test(t), chain(inner[0])))
+                done_factor = True
+                continue
+            # other tests on kktsolver (customkkt flags inside argument checks) are not part of the dispatch
+    if not done_factor: raise Untranslatable('no factory selection found in ' + fn.name)
+    return lines
+
+def gen_dispatch():
+    out = ['/- GENERATED by tools/translate/py2lean.py (gen_dispatch) from /repo/src/python/{coneprog,cvxprog,misc}.py. Do not edit. -/',
+           'import CvxVerif.Model.PyVal', 'set_option linter.unusedVariables false', 'namespace CvxVerif.Gen.Dispatch',
+           'open CvxVerif.Py', '']
+    names = []
+    for mod, name in DISPATCHERS:
+        fn = find_func(load(mod), name)
+        lines = dispatch_body(fn)
+        out.append('/-- `kktsolver` handling of `%s.%s`: the built-in factory used (name, number of positional arguments), '
+                   'or ("callable", 0) when the argument is called as a user KKT solver -/' % (mod, name))
+        out.append('def %s_dispatch (kktsolver : Val) (coneQS : Bool) : M (String × Nat) := do' % name)
+        out += ['  ' + l for l in lines]
+        out.append('')
+        names.append(name)
+    out.append('def dispatchers : List (String × (Val → Bool → M (String × Nat))) :=\n  ' +
+               llist('(%s, %s_dispatch)' % (lstr(n), n) for n in names) + '\n')
+    # wrappers hand their kktsolver argument on unchanged
+    ws = []
+    for mod, name in WRAPPERS:
+        fn = find_func(load(mod), name)
+        for n in ast.walk(fn):
+            if isinstance(n, ast.Call):
+                f = n.func
+                callee = f.id if isinstance(f, ast.Name) else None
+                if callee in ('conelp', 'coneqp', 'cp', 'cpl'):
+                    kw = [k for k in n.keywords if k.arg == 'kktsolver']
+                    ok = bool(kw) and isinstance(kw[0].value, ast.Name) and kw[0].value.id == 'kktsolver'
+                    ws.append('(%s, %s, %s)' % (lstr(name), lstr(callee), 'true' if ok else 'false'))
+    out.append('/-- (wrapper, native solver it calls, passes `kktsolver = kktsolver` unchanged) -/')
+    out.append('def wrappers : List (String × String × Bool) := ' + llist(ws) + '\n')
+    # signatures of the factories in misc.py: maximal number of positional arguments
+    sigs = []
+    for n in load('misc').body:
+        if isinstance(n, ast.FunctionDef) and n.name.startswith('kkt_'):
+            sigs.append('(%s, %d)' % (lstr(n.name), len(n.args.args)))
+    out.append('def factories : List (String × Nat) := ' + llist(sigs) + '\n')
+    out.append('end CvxVerif.Gen.Dispatch\n')
+    write_if_changed(os.path.join(GEN, 'Dispatch.lean'), '\n'.join(out))
+    return []
+
 if __name__ == '__main__':
     which = sys.argv[1:] or ['options']
     for w in which:
